@@ -124,7 +124,16 @@ func (d *Deb) Package(info *nfpm.Info, deb io.Writer) (err error) { // nolint: f
 
 	debianBinary := []byte("2.0\n")
 
-	w := ar.NewWriter(deb)
+	// ar.Writer drops the error of the padding byte it writes after members of
+	// odd length, so remember the first error the destination reports
+	out := &errTrackingWriter{w: deb}
+	defer func() {
+		if err == nil {
+			err = out.err
+		}
+	}()
+
+	w := ar.NewWriter(out)
 	if err := w.WriteGlobalHeader(); err != nil {
 		return fmt.Errorf("cannot write ar header to deb file: %w", err)
 	}
@@ -313,6 +322,20 @@ func addArFile(w *ar.Writer, name string, body []byte, date time.Time) error {
 	}
 	_, err := w.Write(body)
 	return err
+}
+
+// errTrackingWriter remembers the first error returned by the wrapped writer.
+type errTrackingWriter struct {
+	w   io.Writer
+	err error
+}
+
+func (e *errTrackingWriter) Write(p []byte) (int, error) {
+	n, err := e.w.Write(p)
+	if err != nil && e.err == nil {
+		e.err = err
+	}
+	return n, err
 }
 
 type nopCloser struct {
